@@ -1,2 +1,29 @@
-(* placeholder until the theorems are stated *)
-From SE Require Import Model.Line.
+(* C09 - The four tagging syntaxes are equivalent; disabled ones are inert.
+   Model: Model/Line.v (pkg/line/line.go).  Statements: Spec/LineSpec.v. *)
+From SE Require Import Spec.LineSpec Proofs.LineSyntaxProofs.
+
+(* Each name-side syntax yields exactly [sem_single]: the labels are those of the well-formed
+   tags (keys escaped), every malformed tag is one tag error, then the sample is processed. *)
+Theorem C09_librato : stmt_librato.   Proof. exact librato_ok. Qed.
+Print Assumptions C09_librato.
+Theorem C09_influx : stmt_influx.     Proof. exact influx_ok. Qed.
+Print Assumptions C09_influx.
+Theorem C09_signalfx : stmt_signalfx. Proof. exact signalfx_ok. Qed.
+Print Assumptions C09_signalfx.
+(* DogStatsD: same events, same counter totals. *)
+Theorem C09_dogstatsd : stmt_dogstatsd. Proof. exact dogstatsd_ok. Qed.
+Print Assumptions C09_dogstatsd.
+(* Disabled syntaxes are inert. *)
+Theorem C09_disabled_nameside : stmt_disabled_nameside. Proof. exact disabled_nameside_ok. Qed.
+Print Assumptions C09_disabled_nameside.
+Theorem C09_disabled_dog : stmt_disabled_dog. Proof. exact disabled_dog_ok. Qed.
+Print Assumptions C09_disabled_dog.
+(* Mixed styles are rejected as a whole and counted. *)
+Theorem C09_mixed_rejected : stmt_mixed_rejected. Proof. exact mixed_rejected_ok. Qed.
+Print Assumptions C09_mixed_rejected.
+
+(* Non-vacuity: a datum satisfying hyp_c09 (unicode key, malformed tags, '=' in a value). *)
+Example C09_hyp_satisfiable :
+  hyp_c09 [x66;x6f] [x6f] [WKV [x6b] [x76]; WBare [x7a]; WKV [] [x76]; WKV [x61;x2e;xc3;xa9] [x3d;x31]]
+          [x31] [x6d;x73] (Some [x30;x2e;x35]) = true.
+Proof. vm_compute. reflexivity. Qed.
